@@ -49,6 +49,7 @@ class Doc:
     items: List[Any] = field(default_factory=list)   # ("lines", [str]) | ("block", Block)
     final_newline: bool = True
     fault: Optional[Dict[str, Any]] = None
+    lead: str = "none"               # how the file starts: none | blank1..3 | bom | bom+blank
 
     def blocks(self) -> List[Block]:
         return [it[1] for it in self.items if it[0] == "block"]
@@ -153,6 +154,15 @@ def gen_doc(rng: random.Random) -> Doc:
         pre = ["Title", "=====", "", rng.choice(PROSE), ""]
     else:
         pre = ["# " + rng.choice(PROSE), ""] + gen_prose(rng, rng.choice([0, 2, 5, 12, 30, 60]))
+    # the very start of the file: empty lines and / or a byte-order mark before anything else (they are lines /
+    # characters of the file like any other: reported line numbers count them)
+    d.lead = rng.choice(["none"] * 5 + ["blank1", "blank2", "blank3", "bom", "bom+blank"])
+    if d.lead.startswith("blank"):
+        pre = [""] * int(d.lead[-1]) + pre
+    elif d.lead == "bom":
+        pre = (["\ufeff" + pre[0]] + pre[1:]) if pre and pre[0] != "" else ["\ufeff", ""] + pre
+    elif d.lead == "bom+blank":
+        pre = ["\ufeff"] + [""] * rng.choice([1, 2, 3]) + pre
     if pre:
         d.items.append(("lines", pre))
     nblocks = rng.choice([1, 1, 2, 2, 3, 4])
